@@ -32,6 +32,7 @@ def _norm_case(c: dict) -> dict:
     for k in ("ystar", "dev", "c"):
         c[k] = [int(v) for v in c[k]]
     c.setdefault("u", 0)
+    c.setdefault("prior", "none")
     return c
 
 
@@ -44,7 +45,7 @@ def predictions(payloads: list) -> list[dict]:
         e = by.setdefault(k, {"case": c, "outcomes": set(), "steps": [], "fragile": bool(p["fragile"]),
                               "result": set(), "scan": set()})
         e["outcomes"].add(p["outcome"])
-        e["steps"].append(p["steps"])
+        e["steps"].append(p["last"])      # steps of 100 the network has made at the last row (history included)
         e["result"].add(p["result"])
         e["scan"].add(p["scan"])
     out = []
@@ -92,7 +93,7 @@ def scan_groups(preds: list[dict]) -> list[dict]:
     argument), default initial values path; one scan per (norm mode, initial value) and one more that scans the
     initial value itself."""
     rows = [p for p in preds if p["case"]["net"] in ("pool1", "const1") and p["case"]["td"] == 1000000
-            and not p["case"]["user"] and not p["fragile"] and p["case"]["u"] == 0]
+            and not p["case"]["user"] and not p["fragile"] and p["case"]["u"] == 0 and p["case"]["prior"] == "none"]
     groups = []
     for rel in (False, True):
         sel = [p for p in rows if p["case"]["rel"] == rel]
@@ -127,12 +128,13 @@ def run(ctx: Ctx) -> int:
             ("alias_accum", "SteadyLoop_alias_accum.cfg", "AccumFails"),
             ("looserel", "SteadyLoop_looserel.cfg", "AccumFails"),
             ("slowaccum", "SteadyLoop_slowaccum.cfg", "AccumFails"),
+            ("earlier", "SteadyLoop_earlier.cfg", "Plumbing"),
             ("grid", "SteadyLoop_quick.cfg" if ctx.quick else "SteadyLoop_full.cfg", None)]
 
     def _job(j):
         return ctx.tlc("SteadyLoop.tla", j[1], tag=j[0], expect_violation=j[2] is not None, workers=4)
 
-    with ThreadPoolExecutor(max_workers=5) as ex:
+    with ThreadPoolExecutor(max_workers=6) as ex:
         outs = list(ex.map(_job, jobs))
     for (tag, cfg, inv), r in zip(jobs, outs):
         if inv is not None:
@@ -144,12 +146,16 @@ def run(ctx: Ctx) -> int:
         "alias loop, relaxing networks": "SuccessIsSteady violated (declared at step 2 far from y*)",
         "alias loop, accumulating networks": "AccumFails violated (x' = c reported as steady at step 2)",
         "copy loop, relative norm, tol > 1/MaxSteps, accumulation": "AccumFails violated (limit of the criterion)",
-        "copy loop, absolute norm, accumulation per step < tol": "AccumFails violated (limit of the criterion)"}
+        "copy loop, absolute norm, accumulation per step < tol": "AccumFails violated (limit of the criterion)",
+        "reporter that hands back earlier results after a failed search": "Plumbing violated (history: simulate, then "
+                                                                          "a failed steady-state search)"}
     grid = outs[-1]
     rep.add_tlc(grid, "SteadyLoop copy loop over the grid: SuccessIsSteady, AccumFails, RelaxConverges, Plumbing, GridIsOK")
     rep.exhaustive = True
     preds = predictions(grid.payloads)
     n_min = 300 if ctx.quick else 2000
+    if not any(p["case"]["prior"] == "sim" and p["outcome"] == "fail" for p in preds):
+        raise MachineryError("no case with a history (earlier successful simulate) and a failing steady-state search")
     if len(preds) < n_min:
         raise MachineryError(f"only {len(preds)} cases emitted")
 
